@@ -93,7 +93,7 @@ pub enum Op {
     Subdirs { h: usize, dir: String, loc: bool },
     WriteArchive { h: usize, path: String, loc: bool, seed: u64 },
     ReadArchive { h: usize, path: String, loc: bool },
-    WriteText { h: usize, path: String, loc: bool, seed: u64 },
+    WriteText { h: usize, path: String, loc: bool, seed: u64, #[serde(default)] clean: bool },
     ReadText { h: usize, path: String, loc: bool },
     ReadFe9Arc { h: usize, path: String, loc: bool },
     ReadArc { h: usize, path: String, loc: bool },
@@ -107,6 +107,10 @@ pub struct HandleCfg {
     pub stack: Vec<usize>,
     pub game: G,
     pub lang: L,
+    /// how the layer directories are spelled when the handle is created:
+    /// 0 canonical, 1 trailing slash, 2 trailing "/.", 3 doubled separator
+    #[serde(default)]
+    pub spelling: u8,
 }
 
 #[derive(Serialize, Deserialize, Clone, Debug, PartialEq)]
@@ -141,7 +145,8 @@ fn gen_cfg(prop: &str, _tier: Tier, run_seed: u64) -> Value {
         } else {
             (*r.pick(&GAMES), *r.pick(&LANGS))
         };
-        handles.push(HandleCfg { stack: pool, game, lang });
+        let spelling = if r.chance(2, 3) { 0 } else { r.range(1, 3) as u8 };
+        handles.push(HandleCfg { stack: pool, game, lang, spelling });
     }
     let swarm: Vec<u32> = (0..10).map(|_| *r.pick(&[0u32, 1, 1, 1, 2, 3])).collect();
     let cfg = Cfg { layers, handles, faulty: r.chance(1, 2), max_ops: r.range(10, 80), swarm };
@@ -566,7 +571,7 @@ fn gen_op(r: &mut Rng, m: &FsModel, cfg: &Cfg, prop: &str, step: usize) -> Op {
             match r.weighted(&[22, 22, 14, 14, 8, 8, 12]) {
                 0 => Op::WriteArchive { h, path, loc, seed: r.next() },
                 1 => Op::ReadArchive { h, path, loc },
-                2 => Op::WriteText { h, path, loc, seed: r.next() },
+                2 => Op::WriteText { h, path, loc, seed: r.next(), clean: r.chance(1, 3) },
                 3 => Op::ReadText { h, path, loc },
                 4 => Op::ReadFe9Arc { h, path, loc },
                 5 => Op::ReadArc { h, path, loc },
@@ -720,6 +725,8 @@ struct World {
     reads_ok: u32,
     lists_ok: u32,
     faults: u32,
+    /// files whose stored bytes were hit by a storage fault at rest (layer, path)
+    tainted: std::collections::BTreeSet<(usize, String)>,
 }
 
 fn model_path(hc: &HandleCfg, path: &str, loc: bool) -> Result<Vec<String>, LocErr> {
@@ -1159,6 +1166,18 @@ fn do_typed_read(ctx: &mut RunCtx, w: &mut World, h: usize, path: &str, loc: boo
         return Ok(());
     }
     let hc = w.handles[h].cfg.clone();
+    if matches!(what, "tpl" | "bch" | "ctpk" | "cgfx") {
+        // a texture container corrupted at rest (not merely torn) is outside every statement; mila's
+        // texture parsers can request absurd buffers on such bytes, which would only kill the worker
+        if let Ok(c) = model_path(&hc, path, loc) {
+            if let Some(l) = w.m.find(&hc.stack, &c, Kind::File) {
+                if w.tainted.contains(&(l, key(&c))) {
+                    ctx.outcome(api, "skipped", "container corrupted at rest");
+                    return Ok(());
+                }
+            }
+        }
+    }
     let owner = loc_owner(w, h, path, loc, "C12");
     ctx.owner = owner.to_string();
     let exp = expect_read(w, h, path, loc);
@@ -1277,6 +1296,7 @@ fn exec(ctx: &mut RunCtx, w: &mut World, op: &Op) -> Step<()> {
                 std::fs::create_dir_all(p).map_err(|e| Stop::Harness(format!("env mkdir: {}", e)))?;
             }
             std::fs::write(&full, data).map_err(|e| Stop::Harness(format!("env write: {}", e)))?;
+            w.tainted.remove(&(*l, key(&c)));
             ctx.outcome("env.put", "ok", "");
             let same_elsewhere = (0..w.cfg.layers).filter(|k| k != l && w.m.layers[*k].node(&c).is_some()).count();
             if same_elsewhere >= 2 {
@@ -1380,6 +1400,7 @@ fn exec(ctx: &mut RunCtx, w: &mut World, op: &Op) -> Step<()> {
             std::fs::write(layer_dir(&w.root, *l).join(key(&c)), &b).map_err(|e| Stop::Harness(format!("env corrupt: {}", e)))?;
             let mut exp = w.m.clone();
             exp.layers[*l].nodes.insert(key(&c), Node::File(b));
+            w.tainted.insert((*l, key(&c)));
             ctx.fault(&format!("corrupt_{}", kind));
             w.faults += 1;
             ctx.outcome("env.corrupt", "ok", kind);
@@ -1412,15 +1433,31 @@ fn exec(ctx: &mut RunCtx, w: &mut World, op: &Op) -> Step<()> {
             let lo = *loc;
             do_write(ctx, w, *h, path, *loc, &None, &bytes, "write_archive", &move |fs| fs.write_archive(&p, &arch, lo))
         }
-        Op::WriteText { h, path, loc, seed } => {
+        Op::WriteText { h, path, loc, seed, clean } => {
             if *h >= w.handles.len() {
                 return Ok(());
             }
             let big = w.handles[*h].cfg.game.big_endian();
-            let t = match guarded(|| sample_text(*seed, big)) {
+            let t = match guarded(|| {
+                let t = sample_text(*seed, big);
+                if *clean {
+                    // an archive as it comes out of a parse: same content, not marked dirty
+                    let fmt = if big { TextArchiveFormat::ShiftJIS } else { TextArchiveFormat::Unicode };
+                    let e = if big { Endian::Big } else { Endian::Little };
+                    match t.serialize().ok().and_then(|b| TextArchive::from_bytes(&b, fmt, e).ok()) {
+                        Some(p) => p,
+                        None => t,
+                    }
+                } else {
+                    t
+                }
+            }) {
                 Ok(a) => a,
                 Err(_) => return Ok(()),
             };
+            if *clean {
+                ctx.probe("write_of_a_parsed_text_archive");
+            }
             let bytes = match guarded(|| t.serialize()) {
                 Ok(Ok(b)) => b,
                 _ => return Ok(()),
@@ -1745,7 +1782,7 @@ fn exec(ctx: &mut RunCtx, w: &mut World, op: &Op) -> Step<()> {
                     }
                 }
                 (g, wv) => {
-                    let owner = if wv.is_err() { "C14" } else { owner };
+                    let owner = if wv.is_err() { if ctx.prop == "C13" { "C13" } else { "C14" } } else { owner };
                     return ctx.violation_for(owner, "listing", "list|wrong_result_kind".to_string(), format!("list({:?}, {:?}, loc={}) = {:?}, model {:?}", dir, pat, loc, g.as_ref().map_err(|e| e.to_string()), wv));
                 }
             }
@@ -1774,7 +1811,7 @@ fn exec(ctx: &mut RunCtx, w: &mut World, op: &Op) -> Step<()> {
                         let refined = refine_owner(w, *h, dir, *loc, owner, &move |fs, p| matches!(fs.subdirectories(p, false), Ok(x) if x == wv));
                         if refined == "C14" && ctx.prop == "C13" { "C13" } else { refined }
                     }
-                    Err(_) => "C14",
+                    Err(_) => if ctx.prop == "C13" { "C13" } else { "C14" },
                 };
                 return ctx.violation_for(owner, "listing", "subdirectories|wrong_entries".to_string(), format!("subdirectories({:?}, loc={}) = {:?}, model {:?} (stack {:?})", dir, loc, got.map_err(|e| e.to_string()), want, hc.stack));
             }
@@ -1864,7 +1901,25 @@ fn run(cfgv: &Value, ctx: &mut RunCtx) -> Step<()> {
         if hc.stack.is_empty() || hc.stack.iter().any(|l| *l >= cfg.layers) {
             return harness("bad handle stack in cfg");
         }
-        let dirs: Vec<String> = hc.stack.iter().map(|l| layer_dir(&root, *l).to_string_lossy().to_string()).collect();
+        let dirs: Vec<String> = hc
+            .stack
+            .iter()
+            .map(|l| {
+                let d = layer_dir(&root, *l).to_string_lossy().to_string();
+                match hc.spelling {
+                    1 => format!("{}/", d),
+                    2 => format!("{}/.", d),
+                    3 => match d.rfind('/') {
+                        Some(i) => format!("{}//{}", &d[..i], &d[i + 1..]),
+                        None => d,
+                    },
+                    _ => d,
+                }
+            })
+            .collect();
+        if hc.spelling != 0 {
+            ctx.probe("layer_roots_spelled_non_canonically");
+        }
         let fs = ctx.mila("LayeredFilesystem::new", || LayeredFilesystem::new(dirs, hc.lang.mila(), hc.game.mila()))?;
         match fs {
             Ok(fs) => handles.push(Handle { fs, cfg: hc.clone() }),
@@ -1879,7 +1934,7 @@ fn run(cfgv: &Value, ctx: &mut RunCtx) -> Step<()> {
             }
         }
     }
-    let mut w = World { root: root.clone(), m: FsModel::new(cfg.layers), handles, cfg: cfg.clone(), writes_ok: 0, reads_ok: 0, lists_ok: 0, faults: 0 };
+    let mut w = World { root: root.clone(), m: FsModel::new(cfg.layers), handles, cfg: cfg.clone(), writes_ok: 0, reads_ok: 0, lists_ok: 0, faults: 0, tainted: Default::default() };
     let mut rng = Rng::sub(ctx.run_seed, "ops");
     let mut result = Ok(());
     loop {
